@@ -37,7 +37,7 @@ pub fn digest(id: u8) -> TargetDescription {
     m
 }
 
-fn rule_tok(r: &ArtifactRule) -> String {
+pub fn rule_tok(r: &ArtifactRule) -> String {
     let o = |x: &Option<String>| x.as_ref().map(|s| hexs(s)).unwrap_or_else(|| "~".into());
     match r {
         ArtifactRule::Create(p) => format!("C={}", hexs(p.value())),
